@@ -771,7 +771,11 @@ impl Exec {
                         if let Some(m) = mms { b = b.max_message_size(m); }
                         // capacity of the session -> link channel
                         if let Some(n) = cfg.get("lbuf").and_then(|x| x.as_u64()) { b.buffer_size = n as usize; }
-                        macro_rules! go { ($v:ident, $w:path) => { tokio::spawn(async move { let mut $v = $v; match b.attach(&mut $v).await {
+                        // drop_first: the handle of another sending link is dropped in the same task, right before the attach is issued
+                        // (no scheduler turn in between: the session engine finds the detach and the allocation ready together)
+                        let victim = e.get("drop_first").and_then(|x| x.as_str()).and_then(|v| self.senders.remove(v));
+                        if victim.is_some() { self.emit(json!({"ev": "ApiDrop", "scope": format!("l:{}", e["drop_first"].as_str().unwrap_or(""))})); }
+                        macro_rules! go { ($v:ident, $w:path) => { tokio::spawn(async move { let mut $v = $v; drop(victim); match b.attach(&mut $v).await {
                             Ok(x) => (ok_json(), Back::SessAndSender(sn, $w($v), ln, Some(x))), Err(e) => (err_json(&e), Back::SessAndSender(sn, $w($v), ln, None)) } }) } }
                         match sess { Sess::C(x) => go!(x, Sess::C), Sess::L(x) => go!(x, Sess::L) }
                     }
